@@ -262,6 +262,12 @@ def resp_cases(rng, tier):
     vals = []
     for ty, (signed, bits) in G.INT_TYPES.items():
         lo, hi = (-(1 << (bits - 1)), (1 << (bits - 1)) - 1) if signed else (0, (1 << bits) - 1)
+        small = set(range(0, 21)) | {10 ** k + d for k in range(1, 20) for d in (-1, 0, 1)}
+        for v in sorted(small | ({-x for x in small} if signed else set())):
+            if lo <= v <= hi:
+                vals.append(('int', ty, v))
+    for ty, (signed, bits) in G.INT_TYPES.items():
+        lo, hi = (-(1 << (bits - 1)), (1 << (bits - 1)) - 1) if signed else (0, (1 << bits) - 1)
         for v in {lo, lo + 1, -1 if signed else 0, 0, 1, 9, 10, 99, 100, hi - 1, hi}:
             vals.append(('int', ty, v))
     nf = 300 if tier == 'quick' else 100000
